@@ -60,7 +60,7 @@ def model_ok_text(s):
     return True
 
 
-def run_model(lines, timeout=int(os.environ.get("VERIF_MODEL_TIMEOUT", "300")), chunk=None):
+def run_model(lines, timeout=int(os.environ.get("VERIF_MODEL_TIMEOUT", "900")), chunk=None):
     """Send request lines to the compiled model driver; returns one response line per request."""
     if not os.path.exists(DRIVER):
         raise ModelError("model driver not built: " + DRIVER)
